@@ -123,9 +123,11 @@ pub struct Src {
     pub data: Arc<Vec<u8>>,
     pub pos: u64,
     pub stats: Rc<RefCell<SrcStats>>,
-    pub fault: Option<SrcFault>,
+    pub fault: Rc<RefCell<Option<SrcFault>>>,
     pub fired: Rc<RefCell<bool>>,
     pub choppy: Option<Rc<RefCell<Rng>>>,
+    /// 0 = short reads and interruptions, 1 = short reads only, 2 = interruptions only
+    pub choppy_mode: u8,
 }
 
 impl Src {
@@ -135,9 +137,10 @@ impl Src {
             data,
             pos: 0,
             stats: Rc::new(RefCell::new(SrcStats { low, ..Default::default() })),
-            fault: None,
+            fault: Rc::new(RefCell::new(None)),
             fired: Rc::new(RefCell::new(false)),
             choppy: None,
+            choppy_mode: 0,
         }
     }
     pub fn reset_stats(&self) {
@@ -150,7 +153,7 @@ impl Read for Src {
     fn read(&mut self, buf: &mut [u8]) -> io::Result<usize> {
         {
             let st = self.stats.borrow();
-            if let Some(SrcFault::ReadAfterSeek(n, tag)) = &self.fault {
+            if let Some(SrcFault::ReadAfterSeek(n, tag)) = &*self.fault.borrow() {
                 if st.seeks == *n && !*self.fired.borrow() {
                     *self.fired.borrow_mut() = true;
                     return Err(tagged_error(*tag));
@@ -162,10 +165,10 @@ impl Read for Src {
         if n > 0 {
             if let Some(rng) = &self.choppy {
                 let mut r = rng.borrow_mut();
-                if r.chance(1, 4) {
+                if self.choppy_mode != 1 && r.chance(1, 4) {
                     return Err(io::Error::new(io::ErrorKind::Interrupted, "interrupted"));
                 }
-                if r.chance(3, 4) {
+                if self.choppy_mode != 2 && r.chance(3, 4) {
                     n = 1 + r.below(n.min(7) as u64) as usize;
                 }
             }
@@ -191,7 +194,7 @@ impl Seek for Src {
             if let SeekFrom::Start(_) = to {
                 st.seek_starts += 1;
             }
-            if let Some(SrcFault::Seek(n, tag)) = &self.fault {
+            if let Some(SrcFault::Seek(n, tag)) = &*self.fault.borrow() {
                 if st.seeks == *n {
                     return Err(tagged_error(*tag));
                 }
